@@ -110,7 +110,7 @@ def resample_configs(rng, shape, interpolation=0):
 
 
 def run(specs, shape, rng_seed, boxes=None, kps=None, channels=None, extra_targets=False,
-        bbox_format='pascal_voc_3d', kp_format='xyzas', kp_kw=None, bbox_kw=None, dtype='int32'):
+        bbox_format='pascal_voc_3d', kp_format='xyzas', kp_kw=None, bbox_kw=None, dtype='int32', via_replay=False):
     """runs Compose(specs) under random.seed(rng_seed) on a labelled volume; returns the result dict"""
     img = R.labelled(shape, dtype)
     mask = R.labelled(shape, dtype)
@@ -123,7 +123,7 @@ def run(specs, shape, rng_seed, boxes=None, kps=None, channels=None, extra_targe
     pipe = R.build(specs, bbox_format=bbox_format if boxes is not None else None,
                    kp_format=kp_format if kps is not None else None,
                    kp_kw=kp_kw if kp_kw is not None else {'angle_in_degrees': False},
-                   bbox_kw=bbox_kw, compose_kw=ckw)
+                   bbox_kw=bbox_kw, compose_kw=ckw, cls='ReplayCompose' if via_replay else 'Compose')
     data = {'image': img, 'mask': mask, 'masks': [mask.copy(), (mask * 2).astype(dtype)]}
     if extra_targets:
         data['image2'] = img.copy()
@@ -134,6 +134,14 @@ def run(specs, shape, rng_seed, boxes=None, kps=None, channels=None, extra_targe
         data['keypoints'] = [tuple(k) for k in kps]
     R.seed(rng_seed)
     np.random.seed(rng_seed % (2 ** 31))
+    if via_replay:
+        # record, then feed the record back with the same inputs under another seed: the replayed run is returned
+        import copy as _copy
+        first = pipe(**_copy.deepcopy(data))
+        R.seed((rng_seed if rng_seed < R.EXT_BASE else 0) + 12345)
+        out = A.ReplayCompose.replay(first['replay'], **data)
+        R.restore_random()
+        return out
     return pipe(**data)
 
 
